@@ -102,7 +102,90 @@ static const jwk_item_t *cb_key;
 static jwt_alg_t cb_alg;
 static unsigned cb_calls;
 #ifdef CB_MUTATES
-static void cb_mutate(jwt_t *jwt);
+/* C19: the callback edits the token object it is handed.  The verdict the rest of verification
+ * WOULD reach on the unedited object is computed at the fork point, inside the callback, by
+ * running the real jwt_verify_complete() on a deep clone; the oracle's choices come from a tape
+ * that is rewound afterwards, so the real continuation sees the same oracle. */
+#ifndef CB_OPS
+#define CB_OPS 2
+#endif
+struct cb_op {
+	unsigned kind;        /* see cb_apply */
+	unsigned name;        /* 0 exp, 1 nbf, 2 iss */
+	long ival;
+	char sval[3];
+};
+static struct cb_op cb_prog[CB_OPS + 1];
+static jwt_t cb_clone;
+static int v_ref = -1;
+static jwt_checker_t *the_chk;
+static unsigned dot2;
+
+/* one edit with a LITERAL member name (keeps the name lookups foldable in every branch) */
+#define CB_EDIT(jwt, op, NAME) do {                                                        \
+	jwt_value_t jv_;                                                                    \
+	memset(&jv_, 0, sizeof(jv_));                                                       \
+	jv_.name = NAME;                                                                    \
+	switch ((op)->kind) {                                                               \
+	case 0: jwt_claim_del(jwt, NAME); break;                  /* delete               */ \
+	case 1: jv_.type = JWT_VALUE_INT; jv_.int_val = (op)->ival; jv_.replace = 1;        \
+		jwt_claim_set(jwt, &jv_); break;                  /* replace by integer   */ \
+	case 2: jv_.type = JWT_VALUE_STR; jv_.str_val = (op)->sval; jv_.replace = 1;        \
+		jwt_claim_set(jwt, &jv_); break;                  /* replace by string    */ \
+	case 3: jv_.type = JWT_VALUE_BOOL; jv_.bool_val = (int)((op)->ival & 1);            \
+		jwt_claim_set(jwt, &jv_); break;                  /* add bool if missing  */ \
+	default: break;                                                                     \
+	}                                                                                   \
+} while (0)
+
+static void cb_apply(jwt_t *jwt, const struct cb_op *op)
+{
+	jwt_value_t jv;
+
+	if (op->kind == 4) {                      /* delete every claim */
+		jwt_claim_del(jwt, NULL);
+		return;
+	}
+	if (op->kind == 5) {                      /* delete every header */
+		jwt_header_del(jwt, NULL);
+		return;
+	}
+	if (op->kind == 6) {                      /* overwrite the alg header */
+		memset(&jv, 0, sizeof(jv));
+		jv.type = JWT_VALUE_STR;
+		jv.name = "alg";
+		jv.str_val = op->sval;
+		jv.replace = 1;
+		jwt_header_set(jwt, &jv);
+		return;
+	}
+	switch (op->name) {
+	case 0: CB_EDIT(jwt, op, "exp"); break;
+	case 1: CB_EDIT(jwt, op, "nbf"); break;
+	default: CB_EDIT(jwt, op, "iss"); break;
+	}
+}
+
+static void cb_mutate(jwt_t *jwt, jwt_config_t *config)
+{
+	unsigned i;
+
+	memset(&cb_clone, 0, sizeof(cb_clone));
+	cb_clone.alg = jwt->alg;
+	cb_clone.headers = vj_clone(jwt->headers);
+	cb_clone.claims = vj_clone(jwt->claims);
+	cb_clone.key = config->key;
+	cb_clone.checker = the_chk;
+#ifndef NO_CLONE
+	jwt_verify_complete(&cb_clone, config, tok, dot2);
+	v_ref = cb_clone.error;
+#else
+	v_ref = nondet_int();
+#endif
+	pv_tape_i = 0;
+	for (i = 0; i < CB_OPS; i++)
+		cb_apply(jwt, &cb_prog[i]);
+}
 #endif
 
 static int the_cb(jwt_t *jwt, jwt_config_t *config)
@@ -113,7 +196,7 @@ static int the_cb(jwt_t *jwt, jwt_config_t *config)
 	if (cb_setalg)
 		config->alg = cb_alg;
 #ifdef CB_MUTATES
-	cb_mutate(jwt);
+	cb_mutate(jwt, config);
 #endif
 	return cb_ret;
 }
@@ -145,7 +228,10 @@ static void havoc_key(jwk_item_t *k)
 	}
 }
 
-static unsigned dot1, dot2, ndots, toklen;
+#ifndef CB_MUTATES
+static unsigned dot2;
+#endif
+static unsigned dot1, ndots, toklen;
 
 static void scan_token(void)
 {
@@ -343,6 +429,29 @@ int main(void)
 #ifdef NO_CB
 	have_cb = 0;
 #endif
+#ifdef PROP_C19
+	/* C19's premise: the callback returns 0 and leaves key and algorithm untouched */
+	have_cb = 1;
+	cb_ret = 0;
+	cb_setkey = cb_setalg = 0;
+	the_chk = chk;
+	for (i = 0; i < CB_OPS; i++) {
+		struct cb_op *op = &cb_prog[i];
+		op->kind = nondet_uint();
+		op->name = nondet_uint();
+		op->ival = nondet_long();
+		op->sval[0] = nondet_char();
+		op->sval[1] = nondet_char();
+		op->sval[2] = '\0';
+		__CPROVER_assume(op->kind < 7 && op->name < 3);
+#ifdef CB_ONLY_KIND
+		__CPROVER_assume(op->kind == CB_ONLY_KIND);
+#endif
+		__CPROVER_assume(op->sval[0] >= 0 && op->sval[1] >= 0);
+	}
+	for (i = 0; i < PV_TAPE_N; i++)
+		pv_tape[i] = nondet_int();
+#endif
 	if (have_cb)
 		__CPROVER_assume(jwt_checker_setcb(chk, the_cb, NULL) == 0);
 
@@ -521,6 +630,30 @@ int main(void)
 			REACH(v == 0 && !pol.exp_on && ps.m[P_EXP].present && ps.m[P_EXP].type == JSON_INTEGER && ps.m[P_EXP].ival < vf_now, "expired token accepted with exp checking off");
 			REACH(v == 0 && eff_have_key && pol.str_on[1], "signed token accepted with sub expectation");
 		}
+#endif
+
+#ifdef PROP_C19
+		if (cb_calls) {
+			PROP(v_ref >= 0 && (v != 0) == (v_ref != 0),
+			     "C19: a callback that edits the token object does not change the verdict");
+			REACH(v == 0 && v_ref == 0, "accepted with and without the edits");
+			REACH(v != 0 && v_ref != 0 && pv_verify_calls + pv_hmac_calls == 0 && ps.called && !ps.is_null, "rejected by a claim check with and without the edits");
+			REACH(v != 0 && cb_prog[0].kind == 0 && cb_prog[0].name == 0 && ps.m[P_EXP].present, "rejected although the callback deleted exp");
+			REACH(v == 0 && cb_prog[0].kind == 1 && cb_prog[0].name == 0, "accepted although the callback replaced exp");
+		} else {
+			PROP(v != 0, "C19: verification cannot succeed without running the configured callback");
+		}
+#endif
+
+#ifdef PROP_C19_ADMIT
+		if (have_cb && cb_ret != 0)
+			PROP(v != 0, "C19: a callback that returns non-zero always makes verification fail");
+		if (v == 0 && cb_ran)
+			PROP(ref_setkey_admits(eff_alg, eff_have_key, eff_have_key ? eff_key->alg : JWT_ALG_NONE),
+			     "C19: key and algorithm selected by the callback obey the setkey admission rules");
+		REACH(v == 0 && cb_ran && cb_setkey && cb_setalg && eff_have_key, "accepted with callback-selected key and alg");
+		REACH(v != 0 && cb_ran && cb_ret == 0 && cb_setkey && !ref_setkey_admits(eff_alg, eff_have_key, eff_have_key ? eff_key->alg : JWT_ALG_NONE), "callback-selected pair refused");
+		REACH(v != 0 && cb_ran && cb_ret != 0, "callback error rejects");
 #endif
 
 #ifdef PROP_C06
